@@ -263,7 +263,8 @@ pub fn check_wire(call: &Call, world: &mut World, ok: bool) -> Vec<Violation> {
         _ => None,
     };
     let generic_java: Option<Option<RequestSettings>> = match &call.entry {
-        Entry::Generic { game_id: "minecraftjava", extra, .. } => {
+        // (the auto-detecting definition starts with the same Java probe, which the Java host answers)
+        Entry::Generic { game_id: "minecraftjava" | "minecraft", extra, .. } => {
             Some(Some(RequestSettings {
                 hostname: extra.as_ref().and_then(|e| e.hostname.clone()).unwrap_or_else(|| "gamedig".to_string()),
                 protocol_version: extra.as_ref().and_then(|e| e.protocol_version).unwrap_or(-1),
@@ -301,8 +302,10 @@ pub fn check_wire(call: &Call, world: &mut World, ok: bool) -> Vec<Violation> {
         }
         return v;
     }
-    if let Entry::Eco { .. } = &call.entry {
-        let want = format!("http://{}:{}/frontpage", call.ip, port);
+    if let Entry::Eco { level } = &call.entry {
+        // the host name of the extra settings goes into the URL / Host header only, never into the address
+        let named = *level == 3;
+        let want = if named { format!("http://{}:{}/frontpage", crate::entry::ECO_HOST_NAME, port) } else { format!("http://{}:{}/frontpage", call.ip, port) };
         for h in &world.hist {
             if let Hist::Http { method, url, .. } = h {
                 if method != "GET" || *url != want {
@@ -317,6 +320,7 @@ pub fn check_wire(call: &Call, world: &mut World, ok: bool) -> Vec<Violation> {
             world.stats.probe("http_request_stream_checked");
             let text = String::from_utf8_lossy(&stream).to_string();
             let host = match call.ip {
+                _ if named => format!("{}:{port}", crate::entry::ECO_HOST_NAME),
                 std::net::IpAddr::V6(ip) => format!("[{ip}]:{port}"),
                 ip => format!("{ip}:{port}"),
             };
@@ -470,9 +474,17 @@ impl Prop for C09 {
                 // the definition-driven Java query with extra request settings (host name and / or
                 // protocol version given through ExtraRequestSettings)
                 let extra = crate::scenarios::gen_extra(&mut t);
-                let port = if t.draw(CFG, 2) == 0 { None } else { Some(1024 + t.draw(CFG, 60_000) as u16) };
+                // the given port is the given port, 0 and 65535 included
+                let port = match t.draw(CFG, 8) {
+                    0 ..= 2 => None,
+                    3 => Some(0),
+                    4 => Some(65_535),
+                    _ => Some(1024 + t.draw(CFG, 60_000) as u16),
+                };
                 let host = crate::models::minecraft::McHost::generate(&mut t, vec![crate::models::minecraft::Variant::Java]);
-                let call = Call { entry: Entry::Generic { game_id: "minecraftjava", extra: extra.clone(), level: 2 }, ip: SERVER_IP, port, default_port: 25565, timeout: None };
+                // through the Java definition or through the auto-detecting one (its first probe is the Java one)
+                let game_id = if t.draw(CFG, 2) == 0 { "minecraftjava" } else { "minecraft" };
+                let call = Call { entry: Entry::Generic { game_id, extra: extra.clone(), level: 2 }, ip: SERVER_IP, port, default_port: 25565, timeout: None };
                 let d = json!({"family": "minecraft java through the definition-driven query", "extra": format!("{extra:?}")});
                 let mut w = World::new(t);
                 w.add_server(SocketAddr::new(SERVER_IP, port.unwrap_or(25565)), Proto::Tcp, Box::new(crate::models::minecraft::McTcpServer::new(host)));
